@@ -24,6 +24,9 @@ CHECKS = {
  "C18": ("exploration", "exhaustive small-scope enumeration of websocket message segmentations x read-size patterns through the broker's real upgrader and wsConn adapter",
   "Every sequence of <=3 binary messages of 0..6 bytes x every cyclic pattern of <=2 (quick) / <=3 (thorough) read sizes 1..7, boundary message sizes around the 1024-byte reader x boundary read sizes, text messages at every position, and write-side framing, all through the real defaultUpgrader + wsConn (client frames come from an independent RFC 6455 framer).",
   "Enumeration of inputs (the property quantifies over inputs only). Trusted: harness framer, in-memory conn; the HTTP server and TCP are not in the loop (the handler is driven through a fake hijackable ResponseWriter).", "DESIGN.md 8/C18"),
+ "C01": ("model_checking", "exhaustive scenario enumeration (all subscription tables of a bounded alphabet x full publish battery) on the real in-process broker under a cooperative scheduler, brute-force reference matcher as oracle",
+  "Every subscription table of 1..2 subscriptions (plus an UNSUBSCRIBE history and, thorough, a third overlapping subscription) over 3 subscribers (v5, v3.1.1, and the v5 publisher itself) x 6 filters x QoS x option shapes, in both delivery modes, installed through real SUBSCRIBE packets on a fresh broker; then 72 publishes (v5 client, v3 client, Publisher API x topics x QoS x retain x properties), every delivery acknowledged. After each publish every socket is compared with the expected multiset of copies (count, QoS, RETAIN, subscription ids, properties), per-publisher order, and the publisher's ack id / reason code.",
+  "Default schedule only in this check (0 scheduling deviations); concurrent publishers under all schedules are explored by the schedule DFS scenarios (C15/C01-E3 when registered). Trusted: vsched/memconn, refmqtt.", "DESIGN.md 8/C01"),
 }
 NA_DEFAULT = "check not built yet in this session (planned design in DESIGN.md section 8)"
 
